@@ -174,6 +174,9 @@ def run(tier, seed):
         live_servers(res, tmp, cf, kf)
     finally:
         shutil.rmtree(tmp, ignore_errors=True)
+    import livetls
+    livetls.run_unusable_certificate(res, tier)
+    res.rule += " | plus start_server with a key that does not belong to the certificate (both backends): nothing may answer a plaintext request"
     return res
 
 def live_servers(res, tmp, cf, kf):
